@@ -83,7 +83,7 @@ def val_to_json(x):
 
 VALUE_SETS = {
     'six': [None, False, True, 0, 1, 2],
-    'mixed': [None, False, 1, 2, 3, 'ab', ('b', 2), R1],
+    'mixed': [None, 1, 2, 3, 'ab', ('b', 2), R1],
 }
 
 
@@ -114,6 +114,32 @@ def outcome(thunk):
         raise
     except Exception as e:
         return ['e', type(e).__name__]
+
+
+def same(g, e):
+    """Type-strict equality of two values in compact form (True is not 1)."""
+    if g is e:
+        return True
+    if type(g) is not type(e):
+        return False
+    if type(g) is list:
+        return len(g) == len(e) and all(same(x, y) for x, y in zip(g, e))
+    if type(g) is dict:
+        return g.keys() == e.keys() and all(same(g[k], e[k]) for k in g)
+    return g == e
+
+
+def first_diff(got, exp):
+    """Index of the first point where two tables differ (points the model leaves undefined are skipped); None if equal.
+    `got` may be a string describing why no table could be computed."""
+    if isinstance(got, str):
+        return 0
+    for i, (g, e) in enumerate(zip(got, exp)):
+        if g is e:
+            continue
+        if e != 'U' and not same(g, e):
+            return i
+    return None
 
 
 def show(v):
